@@ -109,9 +109,143 @@ def generate(seeds=(1, 2, 3), tier='quick'):
     return g, stats
 
 
+STATIC = [('NdeVerif.Proofs.C02', 'NdeVerif.C02', ['riSq_symm', 'basis_symm', 'interp_at_control', 'enforce_at_control',
+                                                   'circular_target_on_circle'])]
+
+
+def _bits(x):
+    import struct
+    return str(struct.unpack('<Q', struct.pack('<d', float(x)))[0])
+
+
+def _unbits(s):
+    import struct
+    return struct.unpack('<d', struct.pack('<Q', int(s)))[0]
+
+
+def irregular_cases(rng, tier):
+    import math
+    cases = []
+    for it in range(6 if tier == 'quick' else 40):
+        m = rng.randint(4, 16)
+        cx, cy = rng.uniform(-1, 1), rng.uniform(-1, 1)
+        ang = sorted(rng.uniform(0, 2 * math.pi) for _ in range(m))
+        # keep the angular gaps away from zero
+        ang = [2 * math.pi * (i + rng.uniform(0.2, 0.8)) / m for i in range(m)]
+        pts = [(cx + (1 + 0.4 * rng.uniform(-1, 1)) * math.cos(a), cy + (1 + 0.4 * rng.uniform(-1, 1)) * math.sin(a)) for a in ang]
+        rng.shuffle(pts)
+        cases.append(dict(kind='star', center=(cx, cy), pts=pts, vals=[rng.uniform(-2, 2) for _ in pts]))
+    # non-star-shaped sets: several control points on one ray from the centre (U- and L-shaped domains)
+    u = [(0., 0.), (3., 0.), (3., 3.), (2., 3.), (2., 1.), (1., 1.), (1., 3.), (0., 3.)]
+    cases.append(dict(kind='U-shape', center=(1.5, 1.5), pts=u, vals=[float(i) for i in range(len(u))]))
+    l_ = [(0., 0.), (2., 0.), (2., 1.), (1., 1.), (1., 2.), (0., 2.)]
+    cases.append(dict(kind='L-shape', center=(0.5, 0.5), pts=l_, vals=[1.5 * i - 2 for i in range(len(l_))]))
+    sq = [(1., 0.), (2., 0.), (0., 1.), (0., 2.), (-1., 0.), (0., -1.)]
+    cases.append(dict(kind='same-ray', center=(0., 0.), pts=sq, vals=[0.5 * i for i in range(len(sq))]))
+    return cases
+
+
+def extra_phase(rep, tier, seed):
+    """irregular domain (pde.CustomBoundaryCondition, Dirichlet control points): correspondence of the real code with
+    NdeVerif.Tps on captured linear systems and random query points + the property itself at every INPUT control point"""
+    import random
+    import numpy as np
+    import torch
+    from neurodiffeq import pde
+    from neurodiffeq.networks import FCNN
+    from ..runner import run_driver, split_blocks
+    rng = random.Random(seed + 17)
+    broken, failing = [], []
+    blocks, expect = [], []
+    stats = dict(cases=0, control_points=0, queries=0, max_solve_residual=0.0, max_control_error=0.0)
+    for case in irregular_cases(rng, tier):
+        captured = []
+        orig = np.linalg.solve
+
+        def spy(W, b):
+            c = orig(W, b)
+            captured.append((np.array(W), np.array(b), np.array(c)))
+            return c
+        np.linalg.solve = spy
+        try:
+            dcps = [pde.DirichletControlPoint(loc=p, val=v) for p, v in zip(case['pts'], case['vals'])]
+            cond = pde.CustomBoundaryCondition(center_point=pde.Point(case['center']), dirichlet_control_points=list(dcps))
+        except Exception as e:
+            failing.append(dict(case=case, error=f'{type(e).__name__}: {e}'))
+            continue
+        finally:
+            np.linalg.solve = orig
+        stats['cases'] += 1
+        stats['control_points'] += len(case['pts'])
+        cleaned = [tuple(cp.loc) for cp in cond.dirichlet_control_points]
+        ctx = dict(kind=case['kind'], center=case['center'], control_points=case['pts'], values=case['vals'])
+        # the property itself: prescribed value at EVERY control point that was passed in, for any network
+        torch.manual_seed(rng.randrange(1 << 30))
+        for net in (FCNN(2, 1, hidden_units=(6,)), (lambda xy: 50.0 + 10 * xy[:, :1] * xy[:, 1:2])):
+            xs = torch.tensor([[p[0]] for p in case['pts']], requires_grad=True)
+            ys = torch.tensor([[p[1]] for p in case['pts']], requires_grad=True)
+            try:
+                got = cond.enforce(net, xs, ys).detach().reshape(-1).tolist()
+            except Exception as e:
+                failing.append(dict(ctx, error=f'{type(e).__name__}: {e}'))
+                break
+            err = max(abs(g - v) / (1 + abs(v)) for g, v in zip(got, case['vals']))
+            stats['max_control_error'] = max(stats['max_control_error'], err)
+            if not err <= 1e-6:
+                failing.append(dict(ctx, violated='enforced function differs from the prescribed value at a Dirichlet control point',
+                                    got=got, surviving_control_points=len(cleaned)))
+                break
+        if len(captured) != 3:
+            broken.append(dict(kind='correspondence', stream='TPS', detail=f'{len(captured)} linear solves instead of 3', case=case['kind']))
+            continue
+        M = len(cleaned)
+        lines = [f'cfg {_bits(0.01)} {_bits(0.5)}', 'pts ' + ' '.join(_bits(v) for p in cleaned for v in p)]
+        for tag, (W, b, c) in zip(('ca', 'cx', 'cy'), captured):
+            lines.append(tag + ' ' + ' '.join(_bits(v) for v in c))
+            res = float(np.abs(W @ c - b).max() / (1 + np.abs(b).max()))
+            stats['max_solve_residual'] = max(stats['max_solve_residual'], res)
+            if not res <= 1e-8:
+                broken.append(dict(kind='correspondence', stream='TPS', detail='residual of the numerical solve', residual=res, case=case['kind']))
+        # targets lie on the circle; right-hand sides are the values / targets
+        bx, by = captured[1][1][:M], captured[2][1][:M]
+        if not np.allclose(bx ** 2 + by ** 2, 0.25, rtol=0, atol=1e-12) or not np.allclose(captured[0][1][:M], [cp.val for cp in cond.dirichlet_control_points]):
+            broken.append(dict(kind='correspondence', stream='TPS', detail='right-hand sides of the linear systems', case=case['kind']))
+        exp = []
+        for k in range(M):
+            lines.append(f'row {k}')
+            exp.append(('row', captured[0][0][k].tolist()))
+        net = FCNN(2, 1, hidden_units=(5,))
+        for _ in range(6):
+            qx, qy = case['center'][0] + rng.uniform(-1.2, 1.2), case['center'][1] + rng.uniform(-1.2, 1.2)
+            X, Y = torch.tensor([[qx]]), torch.tensor([[qy]])
+            n = float(net(torch.cat([X, Y], 1)).detach())
+            lines.append(f'q {_bits(qx)} {_bits(qy)} {_bits(n)}')
+            exp.append(('q', (float(cond.a_d(X, Y)), float(cond.l_d(X, Y)), float(cond.enforce(net, X, Y).detach()))))
+            stats['queries'] += 1
+        blocks.append('\n'.join(lines) + '\n---')
+        expect.append((case['kind'], exp))
+    if blocks:
+        out, dt = run_driver('Tps', '\n'.join(blocks) + '\n')
+        for (kind, exp), mb in zip(expect, split_blocks(out)):
+            for (tag, want), line in zip(exp, mb):
+                toks = line.split()
+                if tag == 'row':
+                    got = [_unbits(t) for t in toks[1:]]
+                    ok = len(got) == len(want) and all(abs(g - w) <= 1e-12 * (1 + abs(w)) for g, w in zip(got, want))
+                else:
+                    got = [_unbits(toks[1]), _unbits(toks[3]), _unbits(toks[5])]
+                    ok = all(abs(g - w) <= 1e-9 * (1 + abs(w)) for g, w in zip(got, want))
+                if not ok:
+                    broken.append(dict(kind='correspondence', stream='TPS model vs CustomBoundaryCondition', case=kind, what=tag,
+                                       model=got[:6], real=list(want)[:6]))
+                    break
+    rep.coverage['irregular_domain'] = stats
+    return broken, failing
+
+
 ASSUMPTIONS = [
     'theorems are over the reals; boundary data are derived from one arbitrary smooth field symbol F (hence compatible)',
-    'the irregular-domain condition (pde.CustomBoundaryCondition) is not covered by this check (see DESIGN.md)',
+    'irregular domain: the theorem assumes the coefficient vectors solve their linear systems exactly; the numerical solve (np.linalg.solve) and the conditioning of the system are runtime (residual observed and bounded by 1e-8 per run); Neumann control points are not covered',
 ]
 
 
@@ -148,7 +282,7 @@ def search(seed, tier):
         ys = (y0 + s * (y1 - y0)).requires_grad_(True); xs = (x0 + s * (x1 - x0)).requires_grad_(True)
         for nm, X, Y in (('x0', full(x0), ys), ('x1', full(x1), ys), ('y0', xs, full(y0)), ('y1', xs, full(y1))):
             got = cond.enforce(net, X, Y).detach(); want = F(X, Y).detach()
-            if not torch.allclose(got, want, rtol=1e-7, atol=1e-7 * (1 + float(want.abs().max()))):
+            if not torch.allclose(got, want, rtol=1e-10, atol=1e-10 * (1 + float(want.abs().max()) + float(got.abs().max()))):
                 found.append(dict(case='bvp2d', unit=unit, edge=nm, x0=x0, x1=x1, y0=y0, y1=y1, F=[a, b, c, d], s=s.reshape(-1).tolist(),
                                   got=got.reshape(-1).tolist(), want=want.reshape(-1).tolist()))
         tm = draw()
@@ -167,7 +301,7 @@ def search(seed, tier):
             if got.shape != want.shape:
                 found.append(dict(case='ibvp_' + m, unit=unit, violated='output is not a single column', shape=list(got.shape)))
                 continue
-            if not torch.allclose(got, want, rtol=1e-7, atol=1e-7 * (1 + float(want.abs().max()))):
+            if not torch.allclose(got, want, rtol=1e-10, atol=1e-10 * (1 + float(want.abs().max()) + float(got.abs().max()))):
                 found.append(dict(case='ibvp_' + m, where='initial', x0=x0, x1=x1, tm=tm, F=[a, b, c, d],
                                   got=got.reshape(-1).tolist(), want=want.reshape(-1).tolist()))
             for side, pt, kind in (('left', x0, m[0]), ('right', x1, m[1])):
